@@ -461,6 +461,12 @@ impl Check for C11 {
                     let pos = (0..=pos).rev().find(|p| s.is_char_boundary(*p)).unwrap_or(0);
                     s.insert_str(pos, ins);
                 }
+                if src.chance(1, 4) && !s.contains('#') {
+                    // a checksum suffix (the right one where the text is in the charset), so that
+                    // the checksum engine sees the mutated body
+                    let cs = crate::descsum::checksum(&s).unwrap_or_else(|| "qpzry9x8".to_string());
+                    s = format!("{}#{}", s, cs);
+                }
                 if src.chance(1, 12) {
                     // long digit runs
                     let digits = "9".repeat(src.range(10, 400));
